@@ -199,7 +199,29 @@ func c02Pipeline(ctx *Ctx, r *Rng) {
 		faultLine := strings.Count(old, "\n") + 1
 		var fault string
 		chain := late && r.Chance(1, 2)
-		if chain {
+		pending := false
+		if late && !chain && r.Chance(1, 2) {
+			// a misplaced directive written directly BEFORE a top-level INCLUDE of the target file: it is still pending
+			// when the INCLUDE is met; the diagnostic is about the including file and must carry ITS include chain
+			ll := strings.Split(old, "\n")
+			var at []int
+			for k, l := range ll {
+				if strings.HasPrefix(l, "INCLUDE ") {
+					at = append(at, k)
+				}
+			}
+			if len(at) > 0 {
+				k := at[r.Intn(len(at))]
+				nl := append(append(append([]string{}, ll[:k]...), "BaseUrl \"http://misplaced\""), ll[k:]...)
+				c.files[target] = []byte(strings.Join(nl, "\n"))
+				faultLine = k + 1
+				pending = true
+				edges = includeEdges(c.files)
+				ctx.Cov.Hit("misplaced directive pending at an INCLUDE")
+			}
+		}
+		if pending {
+		} else if chain {
 			// a fault INSIDE the body of a user type that is reached through a chain of usages @k0 -> @k1 -> … :
 			// the types in a random declaration order, the fault (a rule the schema language does not have, or an
 			// example that violates its own constraint) on a line of its own in the deepest type
@@ -243,12 +265,13 @@ func c02Pipeline(ctx *Ctx, r *Rng) {
 				}
 			}
 		}
-		if late && (endsInText || c.nested[target]) {
+		if late && !pending && (endsInText || c.nested[target]) {
 			// a top-level TYPE at the end of a file that holds the CHILDREN of a directive ends that directive's
 			// context: what follows the INCLUDE in the including file would be rejected first
 			continue
 		}
-		if late {
+		if pending {
+		} else if late {
 			c.files[target] = []byte(old + fault)
 		} else {
 			if target == "root.jst" {
